@@ -68,7 +68,7 @@ AGGREGATORS = {
                       (curr[0] + 1, new + curr[1])
                       if curr is not None
                       else (1, new),
-                      lambda value: value[1] / value[0],
+                      lambda value: value[1] / value[0] if value is not None else None,
                       None,
                       False),
     'median': Aggregator(lambda curr, new:
